@@ -155,6 +155,8 @@ pub fn execute_c12(scn_v: &Value) -> RunReport {
     // the same criterion per class of location (signed payload / inside a disclosure value) and
     // per object position: (lists, in member order, decoys last)
     let mut by_group: BTreeMap<String, (u64, u64, u64)> = BTreeMap::new();
+    let (mut pair_total, mut pair_in_order) = (0u64, 0u64);
+    let (mut pair_total_off, mut pair_in_order_off) = (0u64, 0u64);
     let mut first_on: Option<String> = None;
     let n = scn.issuances.max(1);
     for k in 0..n {
@@ -208,6 +210,25 @@ pub fn execute_c12(scn_v: &Value) -> RunReport {
                     e.1 += in_order as u64;
                     e.2 += decoys_last as u64;
                 }
+                // relative order of the first two hidden members (a fair coin for sorted or
+                // uniformly shuffled lists)
+                if idx.len() >= 2 {
+                    pair_total += 1;
+                    pair_in_order += (idx[0] < idx[1]) as u64;
+                }
+            }
+        }
+        // no digest of the credential may be derivable from another one (SHA-256 of its text or of
+        // its 32 bytes): such a relation tells an observer that both are decoys
+        {
+            use sha2::{Digest, Sha256};
+            let all: HashSet<&String> = proc.seen.iter().collect();
+            for d in &proc.seen {
+                let h_text = model::digest(d);
+                let h_bytes = model::b64d(d).map(|b| model::b64e(&Sha256::digest(&b)));
+                if (all.contains(&h_text) && &h_text != d) || h_bytes.as_ref().map(|h| all.contains(h) && h != d).unwrap_or(false) {
+                    cx.violate("C12", "decoy-has-digest-form", "c12:digest_derivable_from_another".into(), BTreeMap::new(), json!({"issuance": k, "digest": d}), scenario.clone());
+                }
             }
         }
         for d in &real {
@@ -251,9 +272,16 @@ pub fn execute_c12(scn_v: &Value) -> RunReport {
             }
         }
     }
+    // the first two hidden members of a list appear in member order about half of the time
+    // (two-sided 8 sigma; the property's own ALL-criterion is the extreme case)
+    let coin = |total: u64, inorder: u64| -> bool { total >= 200 && ((inorder as f64) - (total as f64) / 2.0).abs() > 4.0 * (total as f64).sqrt() };
+    cx.rep.add("oracle.c12.pairs_judged", pair_total);
+    if coin(pair_total, pair_in_order) {
+        cx.violate("C12", "order-does-not-reveal-member-order", "c12:pair_order_biased:decoys_on".into(), BTreeMap::new(), json!({"pairs": pair_total, "in_member_order": pair_in_order}), scenario.clone());
+    }
     // decoys off: every digest matches an issued disclosure
     let mut first_off: Option<String> = None;
-    for k in 0..(n / 10).max(2) {
+    for k in 0..(n / 2).max(2) {
         let Out::Ok(s) = w.issue(n_i, &ih, &scn.key, &scn.claims, &scn.strat, None, false, scn.fmt) else { break };
         if first_off.is_none() {
             first_off = Some(s.clone());
@@ -266,6 +294,20 @@ pub fn execute_c12(scn_v: &Value) -> RunReport {
         if proc.seen.iter().any(|d| !real.contains(d)) {
             cx.violate("C12", "no-decoys-when-disabled", "c12:decoy_when_disabled".into(), BTreeMap::new(), json!({"issuance": k}), scenario.clone());
         }
+        // order of hidden members without decoys
+        let order: BTreeMap<&String, usize> = m.disclosures.iter().enumerate().map(|(i, d)| (d, i)).collect();
+        let disc_of: BTreeMap<&String, &String> = proc.nodes.iter().map(|nd| (&nd.digest, &nd.disclosure)).collect();
+        for o in &proc.objects {
+            let idx: Vec<usize> = o.sd.iter().filter_map(|d| disc_of.get(d).and_then(|s| order.get(*s)).copied()).collect();
+            if idx.len() >= 2 {
+                pair_total_off += 1;
+                pair_in_order_off += (idx[0] < idx[1]) as u64;
+            }
+        }
+    }
+    cx.rep.add("oracle.c12.pairs_judged_decoys_off", pair_total_off);
+    if coin(pair_total_off, pair_in_order_off) {
+        cx.violate("C12", "order-does-not-reveal-member-order", "c12:pair_order_biased:decoys_off".into(), BTreeMap::new(), json!({"pairs": pair_total_off, "in_member_order": pair_in_order_off}), scenario.clone());
     }
     // inert: holder and verifier results identical to the decoy-free case
     if let (Some(on), Some(off)) = (first_on, first_off) {
@@ -363,6 +405,11 @@ pub fn gen_c14(rng: &mut Rng, tier: Tier) -> Result<Value, serde_json::Error> {
             }
             if rng.bool() {
                 o.insert(rng.pick(&["straße", "住所", "prénom", "имя", "ключ😀"]).to_string(), json!({"国": "日本", "naïve": [1, 2]}));
+            }
+            // a very wide object (dozens of hidden members side by side)
+            if rng.chance(1, 6) {
+                let w: Map<String, Value> = (0..(28 + rng.usize(50))).map(|i| (format!("w{}", i), json!(i))).collect();
+                o.insert("wide".into(), Value::Object(w));
             }
         }
     }
@@ -544,6 +591,106 @@ fn scan(issued: &[(usize, String)]) -> SaltScan {
     sc
 }
 
+/// Looks for a fixed relation between the 64-bit halves of every salt, or between consecutive
+/// salts of a thread, that one step of a well-known small-state generator would produce. A relation
+/// must hold for ALL (>= 12) samples to count; for independent random halves each of these has
+/// probability 2^-64 per sample.
+fn weak_generator_relation(issued: &[(usize, String)]) -> Option<(String, Value)> {
+    fn unmix_splitmix(mut z: u64) -> u64 {
+        // inverse of SplitMix64's finalizer
+        z = z ^ (z >> 31) ^ (z >> 62);
+        z = z.wrapping_mul(0x319642b2d24d8ec3);
+        z = z ^ (z >> 27) ^ (z >> 54);
+        z = z.wrapping_mul(0x96de1b173f119089);
+        z ^ (z >> 30) ^ (z >> 60)
+    }
+    fn xorshift64(mut x: u64) -> u64 {
+        x ^= x << 13;
+        x ^= x >> 7;
+        x ^= x << 17;
+        x
+    }
+    fn xorshift64_alt(mut x: u64) -> u64 {
+        x ^= x >> 12;
+        x ^= x << 25;
+        x ^= x >> 27;
+        x
+    }
+    // per thread, in issuance order: (first half, second half) in LE and BE reading
+    let mut per_thread: BTreeMap<usize, Vec<[u8; 16]>> = BTreeMap::new();
+    for (t, s) in issued {
+        let Some(m) = Message::parse(s, Fmt::Compact) else { continue };
+        for d in &m.disclosures {
+            if let Some(b) = model::decode_disclosure(d).and_then(|v| v.get(0).and_then(Value::as_str).and_then(model::b64d)) {
+                if b.len() == 16 {
+                    let mut a = [0u8; 16];
+                    a.copy_from_slice(&b);
+                    per_thread.entry(*t).or_default().push(a);
+                }
+            }
+        }
+    }
+    for be in [false, true] {
+        let rd = |b: &[u8]| -> u64 {
+            let mut a = [0u8; 8];
+            a.copy_from_slice(b);
+            if be {
+                u64::from_be_bytes(a)
+            } else {
+                u64::from_le_bytes(a)
+            }
+        };
+        for (t, salts) in &per_thread {
+            if salts.len() < 12 {
+                continue;
+            }
+            let halves: Vec<(u64, u64)> = salts.iter().map(|s| (rd(&s[..8]), rd(&s[8..]))).collect();
+            // sequence of 64-bit words as drawn: h1, h2, h1', h2', ...
+            let words: Vec<u64> = halves.iter().flat_map(|(a, b)| [*a, *b]).collect();
+            let all_pairs = |f: &dyn Fn(u64, u64) -> bool| halves.iter().all(|(a, b)| f(*a, *b));
+            let const_diff = |g: &dyn Fn(u64) -> u64| -> bool {
+                let d0 = g(halves[0].1).wrapping_sub(g(halves[0].0));
+                halves.iter().all(|(a, b)| g(*b).wrapping_sub(g(*a)) == d0)
+            };
+            let mk = |what: &str| Some((what.to_string(), json!({"thread": t, "byte_order": if be { "big-endian" } else { "little-endian" }, "salts_examined": salts.len(), "example": model::b64e(&salts[0])})));
+            if const_diff(&unmix_splitmix) {
+                return mk("splitmix64");
+            }
+            if const_diff(&|x| x) {
+                return mk("counter_or_additive");
+            }
+            if all_pairs(&|a, b| xorshift64(a) == b) || all_pairs(&|a, b| xorshift64_alt(a) == b) {
+                return mk("xorshift64");
+            }
+            for mul in [6364136223846793005u64, 0x5851f42d4c957f2d, 0x2545F4914F6CDD1D, 0xd1342543de82ef95] {
+                let c0 = halves[0].1.wrapping_sub(halves[0].0.wrapping_mul(mul));
+                if halves.iter().all(|(a, b)| b.wrapping_sub(a.wrapping_mul(mul)) == c0) {
+                    return mk("lcg64");
+                }
+                // xorshift64* style: output = state * mul
+                let inv_ok = halves.iter().all(|(a, b)| {
+                    // both halves outputs of consecutive xorshift states scaled by mul: compare un-scaled via modular inverse is costly; use the forward form on words instead
+                    let _ = (a, b);
+                    false
+                });
+                let _ = inv_ok;
+            }
+            if all_pairs(&|a, b| a == b) {
+                return mk("halves_equal");
+            }
+            // consecutive words of the thread's stream
+            if words.windows(2).all(|w| xorshift64(w[0]) == w[1]) {
+                return mk("xorshift64_stream");
+            }
+            let d0 = unmix_splitmix(words[1]).wrapping_sub(unmix_splitmix(words[0]));
+            if words.windows(2).all(|w| unmix_splitmix(w[1]).wrapping_sub(unmix_splitmix(w[0])) == d0) {
+                return mk("splitmix64_stream");
+            }
+        }
+    }
+    None
+}
+
 pub fn execute_c14(scn_v: &Value) -> RunReport {
     let scn: ThreadsScn = match serde_json::from_value(scn_v.clone()) {
         Ok(s) => s,
@@ -634,6 +781,14 @@ pub fn execute_c14(scn_v: &Value) -> RunReport {
             }
         }
     }
+    // the two 64-bit halves of a salt (and consecutive salts of one thread) must not be related
+    // by one step of a common small-state generator (SplitMix64, xorshift64(*), 64-bit LCG, counter)
+    if let Some((what, detail)) = weak_generator_relation(&a.issued) {
+        cx.rep.count("oracle.c14.generator_relation_checked");
+        cx.violate("C14", "salts-are-128-random-bits", format!("c14:salt_halves_related:{}", what), BTreeMap::new(), detail, scenario.clone());
+    } else {
+        cx.rep.count("oracle.c14.generator_relation_checked");
+    }
     if a.issued.len() >= 2 {
         cx.nontrivial.insert(mix(&[scn.entropy_seed, a.sched_hash]));
         cx.nontrivial.insert(mix(&[scn.other_entropy_seed, b.sched_hash]));
@@ -665,6 +820,10 @@ pub struct MockIssue {
     /// moment (it only looks at the queue): the issuer has to wait for it, nothing else may change
     #[serde(default)]
     pub contended: bool,
+    /// this issuance is attempted by an issuer whose key does not fit its algorithm: it fails at
+    /// signing, after the payload (and its disclosures) were assembled
+    #[serde(default)]
+    pub bad_alg: bool,
 }
 
 #[derive(Clone, Debug, Serialize, Deserialize, PartialEq)]
@@ -683,6 +842,7 @@ fn nasty_string(rng: &mut Rng) -> String {
     // structural characters (U+2122 -> 0x22, U+305C -> 0x5C, U+FF5C, U+012C, U+1F622 ...)
     let atoms = [
         ",", ":", "[", "]", "\"", "\\", " ", "  ", "\":", ":[", ", ", "\": ", "\":  ", "{", "}", "a", "b", "1 Main St,Town", "x\":y", "p:[q", "é", "\\\"", "\\\\", "\":\"", "\",\"", "\\u0041", "\n",
+        "\u{a0}", "e\u{301}", "\u{200d}", "\u{1}", "\u{7f}", "\u{85}", "\u{2028}", "\u{feff}", "\u{0}",
         "\u{2122}", "\u{0122}", "\u{305c}", "\u{ff5c}", "\u{1f622}", "\u{012c}", "\u{203a}", "\u{005c}\u{2122},", "Acme\u{2122}, Inc.: Berlin", "\u{ff02}", "\u{ff3c}", "\u{2c}\u{3a}",
     ];
     let n = 1 + rng.usize(6);
@@ -739,7 +899,7 @@ pub fn gen_c16(rng: &mut Rng, _tier: Tier) -> Result<Value, serde_json::Error> {
             1 => gen::gen_strategy(rng, &claims),
             _ => Strat::All,
         };
-        issuances.push(MockIssue { claims, strat, fmt: rand_fmt(rng), node: rng.usize(2), decoys: rng.chance(1, 4), contended: rng.chance(1, 12) });
+        issuances.push(MockIssue { claims, strat, fmt: rand_fmt(rng), node: rng.usize(2), decoys: rng.chance(1, 4), contended: rng.chance(1, 12), bad_alg: rng.chance(1, 10) });
     }
     // queue comfortably longer than needed (an empty queue panics by design of the mock build)
     let qlen = 400;
@@ -889,6 +1049,28 @@ pub fn execute_c16(scn_v: &Value) -> RunReport {
         let mut outs = Vec::new();
         for (j, is) in scn.issuances.iter().enumerate() {
             let nd = is.node % 2;
+            if is.bad_alg {
+                // fails at signing; how many salts it took is read off the queue afterwards
+                let before = queue_now().len();
+                let bad = World::new_issuer(if scn.key.starts_with("hs") { "ecA" } else { "hsA" }, alg.clone());
+                let o = w.issue(nodes[nd], &bad, "none", &is.claims, &is.strat, None, is.decoys, is.fmt);
+                let after = queue_now();
+                if pass == 0 {
+                    cx.rep.count("fault.failing_issuance_at_signing");
+                    if o.is_ok() {
+                        cx.rep.count("probe.bad_alg_issuance_unexpectedly_ok");
+                    }
+                    // whatever it consumed, what is left must still be a suffix of the queue in order
+                    let taken = before.saturating_sub(after.len());
+                    let want = &scn.queue[(consumed + taken).min(scn.queue.len())..];
+                    if after.as_slice() != want {
+                        cx.violate("C16", "queue-conservation", "c16:queue_disturbed_by_failed_issuance".into(), BTreeMap::new(), json!({"issuance": j, "consumed_before": consumed, "taken_by_failed_call": taken, "queue_head_now": after.iter().take(4).collect::<Vec<_>>(), "expected_head": want.iter().take(4).collect::<Vec<_>>()}), scenario.clone());
+                    }
+                }
+                consumed += before.saturating_sub(after.len());
+                outs.push(o.ok().cloned());
+                continue;
+            }
             let out = if is.contended {
                 contended_issue(&mut w, nodes[nd], n_h, &ih[nd], &scn.key, is, &mut cx, pass == 0)
             } else {
